@@ -329,6 +329,11 @@ func (cc *grpcClientConn) Spec() Spec {
 }
 
 func (cc *grpcClientConn) Send(msg any) error {
+	// Send starts the call, even if this message turns out to be unsendable:
+	// a caller whose first Send fails in the codec and who then turns to the
+	// response side would otherwise wait for a request that is never made -
+	// forever, since nothing watches the context of a call that hasn't begun.
+	cc.duplexCall.ensureRequestMade()
 	if err := cc.marshaler.Marshal(msg); err != nil {
 		return err
 	}
